@@ -82,6 +82,7 @@ func buildPlan(env *runner.Env) {
 		{"chain-ue", buildSysPlan(seeds, th)},
 		{"ctx-ue", buildCtxUEPlan(th)},
 		{"sei-ue", buildSEIUEPlan(seeds, th)},
+		{"ps-struct", buildStructPlan(th)},
 		{"flip", pick(12000, 600000)},
 		{"lenprefix", pick(2000, 50000)},
 		{"splice", pick(2000, 50000)},
@@ -129,6 +130,11 @@ func init() {
 		Setup: func(env *runner.Env) error {
 			s, err := loadSeeds(env)
 			if err != nil {
+				if len(setupViol) > 0 {
+					// the library panicked on the seeds themselves: report that (case 0) instead of failing
+					plan, planTotal = []planEntry{{"setup-only", 1}}, 1
+					return nil
+				}
 				return err
 			}
 			seeds = s
@@ -151,6 +157,9 @@ func run(c *runner.Ctx, idx int) {
 	x := &runCtx{c: c, maps: defaultMaps}
 	x.gen = &genState{rand: c.Rand}
 	c.Seen("generator", kind)
+	if idx == 0 {
+		reportSetupViolations(c)
+	}
 	var j *job
 	switch kind {
 	case "trunc":
@@ -169,6 +178,11 @@ func run(c *runner.Ctx, idx int) {
 		j = genCtxUE(x, c, sub)
 	case "sei-ue":
 		j = genSEIUE(x, c, sub)
+	case "ps-struct":
+		j = genStruct(x, c, sub)
+	case "setup-only":
+		// the seeds could not be loaded because the library panicked on them: only the recorded panics are reported
+		c.Count("setup_degraded", 1)
 	case "flip":
 		genFlip(x)
 	case "lenprefix":
@@ -778,7 +792,7 @@ func parsePSInto(x *runCtx, ch *chainDetail, m *psMaps, ps [][]byte, hostile boo
 			if hostile && s.VUI != nil {
 				m.avcSEISPS = append([]*avc.SPS{s}, m.avcSEISPS...)
 			}
-			if hostile && ch.Sys {
+			if hostile && (ch.Sys || ch.Struct) {
 				x.call("avc.SPS methods", len(u), func() {
 					_ = avc.CodecString("avc1", s)
 					_ = s.ConstraintFlags()
@@ -837,7 +851,7 @@ func parsePSInto(x *runCtx, ch *chainDetail, m *psMaps, ps [][]byte, hostile boo
 		if hostile && s.VUI != nil {
 			m.hevcSEISPS = append([]*hevc.SPS{s}, m.hevcSEISPS...)
 		}
-		if hostile && ch.Sys {
+		if hostile && (ch.Sys || ch.Struct) {
 			x.call("hevc.SPS methods", len(u), func() {
 				_, _ = s.ImageSize()
 				_ = hevc.CodecString("hvc1", s)
